@@ -78,18 +78,23 @@ static void sc_launch(void)
 
 static void sc_join_all(void)
 {
+    /* work units first: joining them keeps this execution stream scheduling; a pthread_join
+     * would block the stream (and every ULT on it) */
     for (int i = 0; i < sc_nactors; i++) {
         actor *a = &sc_actors[i];
-        if (a->kind == AK_EXT) {
+        if (a->kind == AK_EXT)
+            continue;
+        vs_log("apiCall join A%d", i);
+        ABT_OK(ABT_thread_join(a->th));
+        vs_note("apiRet join A%d", i);
+        VSA_CHECK(a->finished == 1, "join of A%d returned but finished=%d", i, a->finished);
+        vs_unname(ABTI_thread_get_ptr(a->th));
+        ABT_OK(ABT_thread_free(&a->th));
+    }
+    for (int i = 0; i < sc_nactors; i++) {
+        actor *a = &sc_actors[i];
+        if (a->kind == AK_EXT)
             pthread_join(a->pt, NULL);
-        } else {
-            vs_log("apiCall join A%d", i);
-            ABT_OK(ABT_thread_join(a->th));
-            vs_note("apiRet join A%d", i);
-            VSA_CHECK(a->finished == 1, "join of A%d returned but finished=%d", i, a->finished);
-            vs_unname(ABTI_thread_get_ptr(a->th));
-            ABT_OK(ABT_thread_free(&a->th));
-        }
         VSA_CHECK(a->started == 1 && a->finished == 1, "actor A%d started=%d finished=%d", i, a->started, a->finished);
     }
 }
